@@ -61,57 +61,54 @@ structure AccBuf where
   beginTag : Bool := false
   deriving Repr, DecidableEq
 
+/-- new allocated size computed by sproto_buffer_append for `n` more bytes -/
+def AccBuf.appendSize (P : ProtoParams) (b : AccBuf) (n : Nat) : Nat :=
+  if n > (if b.size < P.bufMin then P.bufMin else b.size) - b.data.length
+  then (if b.size < P.bufMin then P.bufMin else b.size) +
+    (n - ((if b.size < P.bufMin then P.bufMin else b.size) - b.data.length))
+  else (if b.size < P.bufMin then P.bufMin else b.size)
+
 /-- sproto_buffer_append (realloc assumed to succeed) -/
 def AccBuf.append (P : ProtoParams) (b : AccBuf) (d : Bytes) : PRes × AccBuf :=
-  let size0 := if b.size < P.bufMin then P.bufMin else b.size
-  let size1 := if d.length > size0 - b.data.length
-               then size0 + (d.length - (size0 - b.data.length)) else size0
-  if size1 ≥ P.bufMax then (.bufferOverflow, b)
-  else (.ok, { b with data := b.data ++ d, size := size1 })
+  if b.appendSize P d.length ≥ P.bufMax then (.bufferOverflow, b)
+  else (.ok, { b with data := b.data ++ d, size := b.appendSize P d.length })
+
+/-- allocated size after the buffer content shrank to `rem` bytes -/
+def AccBuf.shrinkSize (P : ProtoParams) (b : AccBuf) (rem : Nat) : Nat :=
+  if rem < b.size then (if rem < P.bufMin then P.bufMin else rem) else b.size
 
 /-- sproto_shrink_in_buffer -/
 def AccBuf.shrink (P : ProtoParams) (b : AccBuf) (n : Nat) : AccBuf :=
-  let n' := if n > b.data.length then b.data.length else n
-  let data' := b.data.drop n'
-  let size' := if data'.length < b.size
-               then (if data'.length < P.bufMin then P.bufMin else data'.length) else b.size
-  { data := data', size := size', beginTag := false }
+  { data := b.data.drop n, size := b.shrinkSize P (b.data.length - n), beginTag := false }
 
 /-- memcpy(sdp, buffer, n): overlay the first n bytes of the scratch packet -/
 def overlay (scratch : Bytes) (src : Bytes) (n : Nat) : Bytes :=
   src.take n ++ scratch.drop n
 
 /-- sproto_pop_in_sdp.  `scratch` is the caller's TSuplaDataPacket as a byte image
-    (srpc->sdp, whatever it held before).  Returns result, new buffer, new scratch. -/
+    (srpc->sdp, whatever it held before).  Returns result, new buffer, new scratch.
+    Written as one if-chain: block 1 of the C (begin-tag search) either fails with
+    DATA_ERROR or leaves `begin_tag = begin_tag || data_size >= 5`. -/
 def popInSdp (P : ProtoParams) (b : AccBuf) (scratch : Bytes) : PRes × AccBuf × Bytes :=
-  -- first block: look for the begin tag
-  let r1 : Option AccBuf :=
-    if !b.beginTag && b.data.length ≥ 5 then
-      if b.data.take 5 = TAG then some { b with beginTag := true } else none
-    else some b
-  match r1 with
-  | none => (.dataError, b.shrink P b.data.length, scratch)
-  | some b =>
-    if b.beginTag then
-      if b.data.length - 5 ≥ P.hdr then
-        let ver := (b.data.getD 5 0).toNat
-        let ds := le32 (b.data.drop 14)
-        if ver > P.ver ∨ ver < P.verMin then
-          -- sdp->version = _sdp->version
-          (.versionError, b.shrink P b.data.length,
-            scratch.take 5 ++ [b.data.getD 5 0] ++ scratch.drop 6)
-        else
-          let sum := (P.hdr + ds) % U32          -- unsigned int addition
-          if ds > P.maxData ∨ sum > P.hdr + P.maxData then
-            (.dataError, b.shrink P b.data.length, scratch)
-          else if (sum + 5) % U32 > b.data.length then
-            (.false_, b, scratch)
-          else if sum ≥ b.size ∨ (b.data.drop sum).take 5 ≠ TAG then
-            (.dataError, b.shrink P b.data.length, scratch)
-          else
-            (.ok, b.shrink P (sum + 5), overlay scratch b.data sum)
-      else (.false_, b, scratch)
-    else (.false_, b, scratch)
+  if b.beginTag = false ∧ 5 ≤ b.data.length ∧ b.data.take 5 ≠ TAG then
+    (.dataError, b.shrink P b.data.length, scratch)
+  else if b.beginTag = false ∧ b.data.length < 5 then (.false_, b, scratch)
+  else if b.data.length - 5 < P.hdr then (.false_, { b with beginTag := true }, scratch)
+  else if (b.data.getD 5 0).toNat > P.ver ∨ (b.data.getD 5 0).toNat < P.verMin then
+    -- sdp->version = _sdp->version
+    (.versionError, b.shrink P b.data.length,
+      scratch.take 5 ++ [b.data.getD 5 0] ++ scratch.drop 6)
+  else if le32 (b.data.drop 14) > P.maxData ∨
+      (P.hdr + le32 (b.data.drop 14)) % U32 > P.hdr + P.maxData then   -- unsigned int addition
+    (.dataError, b.shrink P b.data.length, scratch)
+  else if ((P.hdr + le32 (b.data.drop 14)) % U32 + 5) % U32 > b.data.length then
+    (.false_, { b with beginTag := true }, scratch)
+  else if (P.hdr + le32 (b.data.drop 14)) % U32 ≥ b.size ∨
+      (b.data.drop ((P.hdr + le32 (b.data.drop 14)) % U32)).take 5 ≠ TAG then
+    (.dataError, b.shrink P b.data.length, scratch)
+  else
+    (.ok, b.shrink P ((P.hdr + le32 (b.data.drop 14)) % U32 + 5),
+      overlay scratch b.data ((P.hdr + le32 (b.data.drop 14)) % U32))
 
 /-- the frame a well-formed packet image denotes -/
 structure Frame where
